@@ -267,6 +267,17 @@ def run_phase(tmp, ph, pi, store="dir"):
     single_app = build_chain(ph["specs"], os.path.join(tmp, f"single_{pi}.txt"), {})
     singles = [canon_value(single_app(make_input(i))) for i in ph["inputs"]]
 
+    # list(app.as_completed(inputs)) of the composed app without writer (same completion order as the apply_to below)
+    asc_app = build_chain(ph["specs"], os.path.join(tmp, f"asc_{pi}.txt"), {})
+    try:
+        if ph.get("sched") is not None and not ph.get("real"):
+            C.PAR.as_completed = permuting(ph["sched"])
+            res = list(asc_app.as_completed(inputs, parallel=True, show_progress=False))
+        else:
+            res = list(asc_app.as_completed(inputs, show_progress=False))
+    finally:
+        C.PAR.as_completed = ORIG_AS_COMPLETED
+    asc = sorted((canon_value(getattr(r, "obj", r)) for r in res), key=repr)
     if store == "sqlite":
         ds = DataStoreSqlite(os.path.join(tmp, "out.sqlitedb"), mode=mode)
         writer = cio.write_db(data_store=ds)
@@ -283,7 +294,7 @@ def run_phase(tmp, ph, pi, store="dir"):
     elif ph.get("sched") is not None:
         C.PAR.as_completed = permuting(ph["sched"])
         kw.update(parallel=True)
-    out = dict(singles=singles)
+    out = dict(singles=singles, asc=asc)
     try:
         res = app.apply_to(inputs, **kw)
         assert res is ds
